@@ -162,6 +162,11 @@ func gr4jrefEngine(args []string) error {
 					st.Set2(0, 4+j, r.Float64()*3)
 				}
 			}
+			init0 := make([]float64, st.Len(1))
+			for j := range init0 {
+				init0[j] = st.Get2(0, j)
+			}
+			var serP, serE, specQ []float64
 			env["S"], env["R"] = st.Get2(0, 0), st.Get2(0, 1)
 			for j := 1; j <= n2; j++ {
 				env[fmt.Sprintf("q1_%d", j)] = st.Get2(0, 4+j-1)
@@ -201,6 +206,7 @@ func gr4jrefEngine(args []string) error {
 					next[fmt.Sprintf("q1_%d", j)] = evalSym(c.Step.Q1[j-1], env)
 				}
 				q := evalSym(c.Step.Q, env)
+				serP, serE, specQ = append(serP, P), append(serE, E), append(specQ, q)
 				// the model's step
 				in := data.NewArray3DFloat64(1, 2, 1)
 				in.Set3(0, 0, 0, P)
@@ -245,6 +251,37 @@ func gr4jrefEngine(args []string) error {
 				}
 				for kk, v := range next {
 					env[kk] = v
+				}
+			}
+			// the same days in ONE call (what a timestep leaves behind in the kernel's local variables for the next one
+			// is invisible in one-day calls): the runoff series must be the one the published equations give day by day
+			if !bad && len(specQ) == T {
+				m2 := sim.Catalog["GR4J"]()
+				m2.ApplyParameters(p)
+				st2 := m2.InitialiseStates(1)
+				for j := range init0 {
+					st2.Set2(0, j, init0[j])
+				}
+				in := data.NewArray3DFloat64(1, 2, T)
+				for t := 0; t < T; t++ {
+					in.Set3(0, 0, t, serP[t])
+					in.Set3(0, 1, t, serE[t])
+				}
+				out := data.NewArray3DFloat64(1, 1, T)
+				if pm := protect(func() { m2.Run(in, st2, out) }); pm == "" {
+					for t := 0; t < T; t++ {
+						if !near(out.Get3(0, 0, t), specQ[t], math.Max(serP[t], 1)) {
+							kinds["runoff-one-call"]++
+							s.NMismatch++
+							if len(s.Mismatches) < 30 {
+								s.Mismatches = append(s.Mismatches, map[string]interface{}{"kind": "runoff-one-call", "n1": n1, "n2": n2,
+									"detail": fmt.Sprintf("all %d days in one call: runoff of day %d (P=%v, E=%v; previous day P=%v, E=%v; x1=%v x2=%v x3=%v x4=%v) is %v in the model, %v by the published equations (day by day the model agrees)",
+										T, t, serP[t], serE[t], serP[maxInt(t-1, 0)], serE[maxInt(t-1, 0)], x1, x2, x3, x4, out.Get3(0, 0, t), specQ[t])})
+							}
+							break
+						}
+					}
+					s.Evaluations += T
 				}
 			}
 			s.Distinct++
